@@ -252,6 +252,8 @@ theorem fundOrLocate_got {s s' : AState} {a : Acct} {r1 r2 fee : Bool} {f : Opti
   simp only [] at h
   split at h
   · rename_i t0 hloc
+    split at h
+    · simp at h
     simp at h
     obtain ⟨h1, h2⟩ := h
     subst h1; subst h2
